@@ -480,8 +480,8 @@ def do_op(lab, side, op, content):
                 return ("noop", op)
             p.delete(i.oid)
             return ("delete", n)
-        if op in ("rename_a_b", "rename_b_a", "move_a_d"):
-            src, dst = {"rename_a_b": ("/a", "/b"), "rename_b_a": ("/b", "/a"), "move_a_d": ("/a", "/d/a")}[op]
+        if op in ("rename_a_b", "rename_b_a", "move_a_d", "rename_a_c"):
+            src, dst = {"rename_a_b": ("/a", "/b"), "rename_b_a": ("/b", "/a"), "move_a_d": ("/a", "/d/a"), "rename_a_c": ("/a", "/c")}[op]
             i = info(src)
             if not i or i.otype.value != "file" or info(dst):
                 return ("noop", op)
